@@ -970,6 +970,24 @@ def packing(c, seed=(0,), ncoef=6, nconst=3, arity=1, use_dS=True, mode="subsets
             a, b_ = fs[0], fs[-1]
             if a.ufl_function_space() == b_.ufl_function_space():
                 form = ufl.replace(form, {a: b_})
+    if mode == "elim_const" or rng.random() < 0.35:
+        # a constant that only appears under a derivative is eliminated by UFL's preprocessing but is still part of the
+        # original form's constants (and of the c array an assembler packs); put one before and one after the others
+        sc = [k for k in consts if k.ufl_shape == ()]
+        if sc:
+            kel = sc[0]
+            keep = [k for k in consts if k is not kel]
+            e = (c.x[0] ** 2 + kel).dx(0)
+            for k in keep:
+                e = e * (2.0 + scal(k))
+            ar = len(form.arguments())
+            args_ = sorted(form.arguments(), key=lambda a_: a_.number())
+            if ar == 1:
+                form = form + e * args_[0] * dx
+            elif ar == 2:
+                form = form + e * inner(args_[1], args_[0]) * dx
+            else:
+                form = form + e * dx
     if mode == "zero":
         fs = [f for f in coefs if f.ufl_shape == ()]
         if fs:
